@@ -227,7 +227,7 @@ pub fn demo() {
     let mut segs = vec![];
     for (i, f) in [f1, f2, f3].iter().enumerate() {
         let line = format!("*{};\n", wire::hex(f));
-        segs.push(KSegment { at_us: 100_000 * (i as u64 + 1), hex: wire::hex(line.as_bytes()) });
+        segs.push(KSegment { at_us: 100_000 * (i as u64 + 1), hex: wire::hex(line.as_bytes()), repeat: 0 });
     }
     let child = KChild {
         gpsd: None,
